@@ -447,3 +447,13 @@ def run(facts, rep, ctx):
     from . import round2
     for nm in ('custom', 'global_banded'):
         round2.ao1(facts, rep, 'alignment::poa::Poa::<F>::' + nm, first=1, second=2, names=('the graph (reference base)', 'the query'), floor=2)
+
+
+_run_before_round6 = run
+
+
+def run(facts, rep, ctx):
+    """rules added after the fifth seeding round (rules/round6.py)"""
+    _run_before_round6(facts, rep, ctx)
+    from . import round6
+    round6.cf2(facts, rep, ['alignment::poa::'], 50)
